@@ -76,7 +76,19 @@ func c15WalkTable(r *an.Run) {
 		return ok && an.IsCallTo(c, "path/filepath.Base") && c.Call.Args[0] == ssa.Value(pathP)
 	}
 	consts := map[string]bool{}
+	helperChecked := map[*ssa.Function]bool{}
 	classify := func(c ssa.Value) string {
+		// an excluded-name predicate extracted into a private helper: isSkippedDir(filepath.Base(path))
+		if call, ok := c.(*ssa.Call); ok {
+			if h := an.StaticCallee(call); h != nil && an.InModule(h) && h.Blocks != nil && len(call.Call.Args) == 1 && isBase(call.Call.Args[0]) &&
+				h.Signature.Results().Len() == 1 && an.ShortType(h.Signature.Results().At(0).Type()) == "bool" {
+				if !helperChecked[h] {
+					helperChecked[h] = true
+					c15ExcludedHelper(r, h, consts)
+				}
+				return "base-is-excluded(helper)"
+			}
+		}
 		switch x := c.(type) {
 		case *ssa.Call:
 			switch {
@@ -103,41 +115,12 @@ func c15WalkTable(r *an.Run) {
 			case x.X == ssa.Value(errP):
 				return ""
 			default:
-				// len(base) == 0
-				if c, ok := x.X.(*ssa.Call); ok && an.IsCallTo(c, "builtin:len") && isBase(c.Call.Args[0]) {
-					if k, ok := an.ConstInt(x.Y); ok && k == 0 {
-						name = "base-empty"
-					}
-				}
-				// base[0] == 'c'
-				var ixX, ixI ssa.Value
-				switch ix := x.X.(type) {
-				case *ssa.Lookup:
-					ixX, ixI = ix.X, ix.Index
-				case *ssa.Index:
-					ixX, ixI = ix.X, ix.Index
-				}
-				if ixX != nil && isBase(ixX) {
-					if i, ok := an.ConstInt(ixI); ok && i == 0 {
-						if k, ok := an.ConstInt(x.Y); ok {
-							consts["first:"+string(rune(k))] = true
-							name = "first-is-" + string(rune(k))
-						}
-					}
-				}
-				if isBase(x.X) {
-					if s, ok := an.ConstString(x.Y); ok {
-						consts["name:"+s] = true
-						name = "base-is-" + s
-					}
-				}
+				return nameTestAtom(x, isBase, consts)
 			}
 			if name == "" {
 				return ""
 			}
 			if x.Op == token.NEQ {
-				// normalise: atom names describe the == form; EnumeratePaths works with the condition as written,
-				// so encode polarity in the name and fix it up when reading the table
 				return "not:" + name
 			}
 			return name
@@ -421,4 +404,91 @@ func c15Normalisation(r *an.Run) {
 			}
 		}
 	}
+}
+
+// nameTestAtom classifies a comparison on a directory base name (subject
+// recognised by isBase): base-empty, first-is-<c>, base-is-<s>; polarity of !=
+// is encoded with a "not:" prefix. Constants are recorded in consts.
+func nameTestAtom(c ssa.Value, isBase func(ssa.Value) bool, consts map[string]bool) string {
+	x, ok := c.(*ssa.BinOp)
+	if !ok || (x.Op != token.EQL && x.Op != token.NEQ) {
+		return ""
+	}
+	name := ""
+	if lc, ok := x.X.(*ssa.Call); ok && an.IsCallTo(lc, "builtin:len") && isBase(lc.Call.Args[0]) {
+		if k, ok := an.ConstInt(x.Y); ok && k == 0 {
+			name = "base-empty"
+		}
+	}
+	var ixX, ixI ssa.Value
+	switch ix := x.X.(type) {
+	case *ssa.Lookup:
+		ixX, ixI = ix.X, ix.Index
+	case *ssa.Index:
+		ixX, ixI = ix.X, ix.Index
+	}
+	if ixX != nil && isBase(ixX) {
+		if i, ok := an.ConstInt(ixI); ok && i == 0 {
+			if k, ok := an.ConstInt(x.Y); ok {
+				consts["first:"+string(rune(k))] = true
+				name = "first-is-" + string(rune(k))
+			}
+		}
+	}
+	if isBase(x.X) {
+		if s, ok := an.ConstString(x.Y); ok {
+			consts["name:"+s] = true
+			name = "base-is-" + s
+		}
+	}
+	if name == "" {
+		return ""
+	}
+	if x.Op == token.NEQ {
+		return "not:" + name
+	}
+	return name
+}
+
+// c15ExcludedHelper: a helper predicate over a base name returns true exactly
+// when one of its name tests holds.
+func c15ExcludedHelper(r *an.Run, h *ssa.Function, consts map[string]bool) {
+	isBase := func(v ssa.Value) bool { return v == ssa.Value(h.Params[0]) }
+	paths, err := an.EnumeratePaths(h, func(c ssa.Value) string { return nameTestAtom(c, isBase, consts) }, nil, 1024)
+	if err != nil {
+		r.Undecided(short(h)+"|table", h.Pos(), "cannot extract the decision table of the excluded-name predicate %s: %v", short(h), err)
+		return
+	}
+	good := len(paths) >= 2
+	for _, p := range paths {
+		ret, ok := p.End.Instrs[len(p.End.Instrs)-1].(*ssa.Return)
+		if !ok {
+			good = false
+			continue
+		}
+		v := p.ResolveOnPath(ret.Results[0])
+		any := false
+		for a, val := range p.Atoms {
+			if strings.HasPrefix(a, "not:") {
+				val = !val
+			}
+			if val {
+				any = true
+			}
+		}
+		k, isc := an.ConstBool(v)
+		if !isc {
+			// `return a || b` materialised: the returned value is the last test on the path
+			if cmp, isCmp := v.(*ssa.BinOp); isCmp && nameTestAtom(cmp, isBase, consts) != "" {
+				// path ends by returning that comparison: both outcomes possible, consistent by construction
+				continue
+			}
+			good = false
+			continue
+		}
+		if k != any {
+			good = false
+		}
+	}
+	r.Check(good, short(h)+"|table", h.Pos(), "%s is true exactly when the base name is empty, starts with an excluded character or is an excluded name (%d paths)", short(h), len(paths))
 }
